@@ -26,7 +26,7 @@ def plan(tier):
     return {"cases": 0 if tier == "quick" else 6000, "shards": 16, "case_timeout": 10,
             "shard_timeout": 600, "min_nontrivial": 500,
             "min_counters": {"yield_events": 1000, "contract_evals": 1000, "construct_rejections": 10, "nested_cases": 100,
-                             "falsy_solutions": 300, "union_conditions": 200}}
+                             "falsy_solutions": 300, "union_conditions": 200, "nested_beside_a_universal_condition": 50}}
 
 
 def setup(ctx):
@@ -174,6 +174,24 @@ def run_nested(ns, m, C):
     elif raised is None and got is not xs[0]:
         problems.append(f"the() returned {got!r} instead of the only match")
     C["exc:" + str(rname)] += 1
+    if not problems:
+        # the quantified inner query is selected and constrained by a universal condition that holds for all of its
+        # solutions (the idiom of the repository's aggregation tests): its count is the count of its own solutions
+        from krrood.entity_query_language.entity import for_all
+        y2 = let(m.P, list(ys), name="y2")
+        inner2 = an(entity(y2, y2.a >= 1), quantification=make_constraint(c))
+        limits = [m.P(a=1000, name="l0"), m.P(a=2000, name="l1")]
+        lim = let(m.P, limits, name="lim")
+        try:
+            got2 = [r.name for r in an(entity(inner2, for_all(lim, inner2.a <= lim.a))).evaluate()]
+            raised2 = None
+        except Exception as e:
+            got2, raised2 = None, type(e).__name__
+        C["nested_beside_a_universal_condition"] += 1
+        # the results are yielded lazily: an upper bound raises once it is exceeded, a lower bound at the end
+        if raised2 != inner_exc or (inner_exc is None and sorted(got2) != sorted(o.name for o in ys)):
+            problems.append(f"an inner {c} with {n_in} solutions, selected and constrained by a for_all that holds for all of them: "
+                            f"expected {inner_exc or sorted(o.name for o in ys)}, got {raised2 or got2}")
     if problems:
         return {"status": "fail", "kind": "nested-quantifier", "key": None, "detail": "; ".join(problems)}
     return {"status": "ok", "nontrivial": True, "shape": f"nested|{n_in}|{c}|{m_out}"}
